@@ -113,7 +113,7 @@ def main():
         "engines": [{"name": "sa", "path": "/verif/sa", "serves_properties": [c["property_id"] for c in checks], "kind_free_text": "repository-specific static analysis in Python (ast, re._parser): source model, call resolution, CFG + dominating facts, effects, regex trees"}],
         "checks": checks,
         "not_applicable": na,
-        "notes": "All checks are static (family: static analysis). quick = all rules of the property on the current tree; thorough = the same plus checker validation (registered mutants must be flagged, benign twins must stay silent, on scratch copies of the current tree).",
+        "notes": "All checks are static (family: static analysis). quick = all rules of the property on the current tree; thorough = the same plus checker validation on scratch copies of the current tree: every registered mutant of the property and every seeded sub-agent change attributed to it (seeded/<name>/patch.diff) must be flagged, every benign twin and every one of the 60 behaviour-preserving seeded refactorings (seeded/benign-*) must leave the check silent; validation is reported (CHECKER-VALIDATION lines, evidence coverage.checker_validation) and never changes the verdict on the tree. Before any rule runs the model normalises the tree (sa/inline.py, sa/renames.py): helpers, constants and names that did not exist on the pinned tree are inlined / folded / mapped back, so behaviour-preserving refactorings do not hide code from the rules; nothing is normalised on the pinned tree itself.",
     }
     with open(os.path.join(HERE, "MANIFEST.json"), "w") as fh:
         json.dump(m, fh, indent=1)
